@@ -38,13 +38,15 @@ CODES = [-999, -9999, -99999, -8888.5, 9999999, -9999999, -99999999, -999.25]
 def gen(rng, tier):
     n = 150 if tier == 'quick' else 4000
     out = []
-    for _ in range(n):
-        nrec = rng.randint(1, 6)
+    # long files (an hour of 1 Hz data): 1-2 per quick run
+    nlong = 2 if tier == 'quick' else 12
+    for i_ in range(n + nlong):
+        nrec = rng.randint(1, 6) if i_ < n else rng.choice([1001, 1000, 2001, 1500, 999])
         deps = []
         for i in range(rng.randint(1, 4)):
             code = rng.choice(CODES)
             near = [code * (1 - 5e-6), code * (1 + 3e-6), code + 0.05 * (1 if abs(code) < 1e5 else 1000)]   # close to the code, different at 7 digits
-            deps.append(dict(name=rng.choice(['O3', 'NO2_ppbv', 'CO', 'Alt/m', 'T']) + str(i), unit=rng.choice(['ppbv', 'm', 'K', 'molec cm-3', 'unknown']),
+            deps.append(dict(name=rng.choice(['O3', 'NO2_ppbv', 'CO', 'Alt/m', 'T']) + str(i), unit=rng.choice(['ppbv', 'm', 'K', 'molec cm-3', 'unknown', 'mol/(m2 s)', 'ug/m3 (STP)', '(dimensionless)']),
                              code=code, fill=rng.choice([code, code, -7777, 1e20]),
                              vals=[rng.choice(VALS + near + [rng.uniform(-1, 1) * 10 ** rng.randint(-8, 8)]) for _ in range(nrec)],
                              mask=[rng.random() < 0.25 for _ in range(nrec)]))
